@@ -20,12 +20,6 @@ about the graph `g` presented by the view:
 namespace Crusta
 open Prog (mkSolver doReserve addClause addClauses getNVars doSolve)
 
-/-- the queried arguments of an entry point -/
-def Entry.argsList : Entry → List Nat
-  | .se => []
-  | .dc _ args => args
-  | .ds _ args => args
-
 /-! ## the list of components of a view -/
 
 /-- the components are good, partition the live arguments, and the graph is finite -/
